@@ -15,6 +15,8 @@ pub struct RealTurn {
     pub data_scan: u64,
     /// true when this turn re-executed an INPUT with a reply
     pub was_reply: bool,
+    /// variables + arrays in canonical text form, captured when the turn ended AwaitingInput or Idle
+    pub digest: Option<Vec<String>>,
 }
 
 #[derive(Clone, Debug, Default)]
@@ -74,6 +76,7 @@ pub fn run_real(sess: &mut Session, start: &str, replies: &[String], turn_cap: u
         token_reads: rec.token_reads,
         data_scan: rec.data_scan,
         was_reply: false,
+        digest: digest_if_quiescent(sess),
     });
     continue_real(sess, &mut run, replies, turn_cap);
     run
@@ -102,6 +105,7 @@ pub fn continue_real(sess: &mut Session, run: &mut RealRun, replies: &[String], 
                     token_reads: rec.token_reads,
                     data_scan: rec.data_scan,
                     was_reply: false,
+                    digest: digest_if_quiescent(sess),
                 });
             }
             InterpreterState::AwaitingInput => {
@@ -120,6 +124,7 @@ pub fn continue_real(sess: &mut Session, run: &mut RealRun, replies: &[String], 
                     token_reads: rec.token_reads,
                     data_scan: rec.data_scan,
                     was_reply: true,
+                    digest: digest_if_quiescent(sess),
                 });
             }
             _ => break,
@@ -133,6 +138,59 @@ pub struct ModelTurn {
     pub status: Status,
     pub line: Option<u64>,
     pub was_reply: bool,
+    pub digest: Option<Vec<String>>,
+}
+
+pub fn digest_if_quiescent(sess: &Session) -> Option<Vec<String>> {
+    if sess.poisoned {
+        return None;
+    }
+    match sess.state() {
+        InterpreterState::Running => None,
+        _ => sess.last_snapshot.as_ref().map(real_digest),
+    }
+}
+
+/// canonical text of variables and arrays of a real interpreter
+pub fn real_digest(s: &abasic_core::verif_hooks::Snapshot) -> Vec<String> {
+    let mut v = vec![];
+    for (name, kind, text) in &s.variables {
+        v.push(format!("var {} = {}:{}", name, kind, text));
+    }
+    for a in &s.arrays {
+        v.push(format!("arr {} {} dims {:?} cells {} set {:?}", a.name, a.kind, a.dimensions, a.cells, a.non_default));
+    }
+    v
+}
+
+/// the same for the model
+pub fn model_digest(m: &Machine) -> Vec<String> {
+    use crate::model::prog::Val;
+    let mut v = vec![];
+    let mut names: Vec<&String> = m.vars.keys().collect();
+    names.sort();
+    for n in names {
+        match &m.vars[n] {
+            Val::N(x) => v.push(format!("var {} = N:{:?}", n, x)),
+            Val::S(x) => v.push(format!("var {} = S:{}", n, x)),
+        }
+    }
+    let mut names: Vec<&String> = m.arrays.keys().collect();
+    names.sort();
+    for n in names {
+        let a = &m.arrays[n];
+        let kind = if n.ends_with('$') { 'S' } else { 'N' };
+        let mut set: Vec<(usize, String)> = vec![];
+        for (i, c) in a.cells.iter().enumerate() {
+            match c {
+                Val::N(x) if x.to_bits() != 0 => set.push((i, format!("{:?}", x))),
+                Val::S(x) if !x.is_empty() => set.push((i, x.clone())),
+                _ => {}
+            }
+        }
+        v.push(format!("arr {} {} dims {:?} cells {} set {:?}", n, kind, a.dims, a.cells.len(), set));
+    }
+    v
 }
 
 #[derive(Clone, Debug, Default)]
@@ -183,7 +241,8 @@ pub fn run_model(prog: &Program, seed: u64, replies: &[String], turn_cap: usize)
                     break;
                 }
                 let events = m.step();
-                run.turns.push(ModelTurn { events, status: m.status.clone(), line: None, was_reply: false });
+                let digest = if m.status != Status::Running { Some(model_digest(&m)) } else { None };
+                run.turns.push(ModelTurn { events, status: m.status.clone(), line: None, was_reply: false, digest });
             }
             Status::AwaitingInput => {
                 if run.turns.len() >= turn_cap {
@@ -193,7 +252,8 @@ pub fn run_model(prog: &Program, seed: u64, replies: &[String], turn_cap: usize)
                 let text = reply_at(replies, run.replies_given);
                 run.replies_given += 1;
                 let events = m.reply(&text);
-                run.turns.push(ModelTurn { events, status: m.status.clone(), line: None, was_reply: true });
+                let digest = if m.status != Status::Running { Some(model_digest(&m)) } else { None };
+                run.turns.push(ModelTurn { events, status: m.status.clone(), line: None, was_reply: true, digest });
             }
             _ => break,
         }
